@@ -345,11 +345,12 @@ func spec() corr.Spec {
 			}
 			return false
 		},
-		Rule: "scripts of 8-90 operations (Set, SetIfAbsent, SetAndGetRemoved, Get, Peek, Exist, Delete, Clear, SetCapacity, Keys, Items, Stats) over 4-10 keys, item sizes 0..capacity+3, capacities 0..30, on cache.LRUCache and tiny.LRUCache (every result line carries Keys(), Items() with sizes and Stats()), on the four wide constructors (mod and xxhash routing, 1-7 shards, Peek listing of the key universe after every call), plus concurrent-caller runs (invariants only) and a malformed / negative-size stream; non-trivial = at least one eviction happened, or a wide script of > 2 operations",
+		Rule: "scripts of 8-200 operations (Set, SetIfAbsent, SetAndGetRemoved, Get, Peek, Exist, Delete, Clear, SetCapacity, Keys, Items, Stats) on cache.LRUCache and tiny.LRUCache; keys of six Go types plus the nil key, nil values (tiny); classes: mixed (4-10 keys, sizes 0..capacity+3, capacities 0..30), brim, shrink, growth, long (lists of 14-180 entries), bigcap (capacities and sizes 2^20..2^62 and MaxInt64), wide (four constructors, mod and xxhash routing, 1-7 shards, Peek listing after every call), concurrent (child process: 2-8 goroutines, single and wide caches, invariants at quiescence), malformed / negative sizes; every result line carries Keys(), Items() with sizes, Stats() and Length()/Size()/Capacity()/Evictions(); non-trivial = at least one eviction happened, or a wide script of > 2 operations",
 		Assumptions: []string{
 			"container/list and the Go map behave as specified (list+table are modelled as one association list in recency order)",
-			"int64 counters do not overflow (sizes and capacities far below 2^63)",
-			"concurrent callers: every public method holds the cache mutex for its whole body (regenerated fact allMethodsLocked), so any interleaving is a sequence of atomic operations; sync.Mutex is trusted",
+			"RESTRICTION of the property's quantifier: the theorems cover sizes and capacities in [0, 2^62); beyond it the int64 size counter wraps (modelled; Lean witness_size_counter_overflow; monitor C04:cache.LRUCache:size-counter-overflows)",
+			"keys compare with a reflexive == (NaN-like keys are outside, as for any Go map)",
+			"concurrent callers: every public method is pinned by its whole canonical body, which begins with mu.Lock(); defer mu.Unlock() and never unlocks in between, so any interleaving is a sequence of atomic operations; sync.Mutex is trusted; lru_concurrent_callers adds nothing beyond the sequential theorem applied to the linearisation; the parallel stress class checks invariants at quiescence only",
 			"wide variants: the shard of a key is the routing function of C17 (k % n for int keys under SimpleIndex; the xxhash route is read from the real remap package into the script)",
 		},
 		Trusted: []string{"container/list, Go maps, sync.Mutex (modelled, not verified)", "go/lib/c17syn (kernel fragments lifted from newWideLRUCache)"},
